@@ -804,6 +804,125 @@ func c13Commands(c *fw.Ctx) {
 	}
 }
 
+// ---- S8: a command that reads one file reads it in ONE session.  For view, view-raw and diff (local and through the
+// server) the lock acquisitions on the source file are counted; a complete writer session (open, one point into every
+// archive, close) is then placed at every boundary: before the first acquisition, between each two, after the last.
+// Whatever the command prints must be what it prints on the file before the writer or on the file after it.
+type c13ReadCase struct {
+	Kind     string `json:"kind"` // reader-sessions
+	Cmd      string `json:"cmd"`
+	Remote   bool   `json:"remote"`
+	Boundary int    `json:"boundary"`
+}
+
+const c13ReadNow = int64(1600000016)
+
+func c13ReadEval(c *fw.Ctx, cmdName string, remote bool, boundary int) (out string, acquisitions int, ok bool) {
+	vrt.SetPagesize(4096)
+	l := wsp.Layout{Archs: LayoutByTag("L6").Archs, Method: 2, XFF: 0}
+	base := filepath.Join(c.Dir, "c13read")
+	sbase := base
+	rel := "s/a.wsp"
+	if remote {
+		url, root := c12Server(c)
+		if url == "" {
+			return "", 0, false
+		}
+		base, sbase = filepath.Join(root, "c13read"), url
+		rel = "c13read/s/a.wsp"
+	}
+	os.RemoveAll(base)
+	p := filepath.Join(base, "s", "a.wsp")
+	(&BFile{L: l, Rings: c17Rings(l, 0)}).Write(p)
+	(&BFile{L: l, Rings: c17Rings(l, 1)}).Write(filepath.Join(base, "d", rel))
+	if rp, err := filepath.EvalSymlinks(p); err == nil {
+		p = rp
+	}
+	writer := func() {
+		db, err := wt.Open(p)
+		if err != nil {
+			return
+		}
+		for i := range l.Archs {
+			db.UpdatePointForArchive(i, wt.Timestamp(c13ReadNow), wt.Value(70.5+float64(i)), wt.Timestamp(c13ReadNow))
+		}
+		db.Sync()
+		db.Close()
+	}
+	outp := filepath.Join(c.Dir, "c13read-out.txt")
+	var cmd Executor
+	switch cmdName {
+	case "view":
+		cmd = &wcmd.ViewCommand{SrcBase: sbase, SrcRelPath: rel, ArchiveID: -1, Until: wt.Timestamp(c13ReadNow), TextOut: outp}
+	case "view-raw":
+		cmd = &wcmd.ViewRawCommand{SrcBase: sbase, SrcRelPath: rel, ArchiveID: -1, Until: wt.Timestamp(c13ReadNow), TextOut: outp}
+	case "diff":
+		cmd = &wcmd.DiffCommand{SrcBase: sbase, SrcRelPath: rel, DestBase: filepath.Join(base, "d"), ArchiveID: -1, Until: wt.Timestamp(c13ReadNow), TextOut: outp}
+	}
+	var mu sync.Mutex
+	n := 0
+	vrt.SetOnLock(func(path string) {
+		if path != p {
+			return
+		}
+		mu.Lock()
+		k := n
+		n++
+		mu.Unlock()
+		if k == boundary {
+			writer()
+		}
+	})
+	err, pn := RunCommand(c13ReadNow, cmd)
+	vrt.SetOnLock(nil)
+	if boundary >= n && boundary < 1<<20 {
+		writer() // the boundary after the last acquisition: the writer runs when the command is done
+	}
+	return classify(err, pn) + "\n" + readAndRemove(outp), n, true
+}
+
+func c13Readers(c *fw.Ctx) {
+	for _, cmdName := range []string{"view", "view-raw", "diff"} {
+		for _, remote := range []bool{false, true} {
+			if !c.Mine() {
+				continue
+			}
+			before, n, ok := c13ReadEval(c, cmdName, remote, 1<<20) // no writer at all
+			if !ok {
+				continue
+			}
+			after, _, _ := c13ReadEval(c, cmdName, remote, 0) // the writer before the first acquisition
+			if n == 0 || before == after {
+				c.Count("reader_sessions_not_observable", 1)
+				continue
+			}
+			c.Count("reader_commands", 1)
+			c.Count("reader_lock_acquisitions", int64(n))
+			for b := 1; b <= n; b++ {
+				got, _, _ := c13ReadEval(c, cmdName, remote, b)
+				c.Count("reader_writer_placements", 1)
+				want := "the output on the file before the writer"
+				if b < n && (got == before || got == after) {
+					continue
+				}
+				if b == n && got == before {
+					continue
+				}
+				where := "local"
+				if remote {
+					where = "remote"
+				}
+				sig := "C13/S8-reader-one-session/" + cmdName + "/" + where
+				if b < n {
+					want = "the output before or the output after the writer"
+				}
+				c.Violate(sig, fmt.Sprintf("%s (%s source, all archives) takes the lock on the source %d times; with a complete writer session placed before acquisition %d it prints neither %s: a mixture of two states of the file", cmdName, where, n, b+1, want), 10, c13ReadCase{Kind: "reader-sessions", Cmd: cmdName, Remote: remote, Boundary: b}, "")
+				break
+			}
+		}
+	}
+}
+
 type c13CmdCase struct {
 	Kind string  `json:"kind"`
 	Case c16Case `json:"case"`
@@ -812,6 +931,7 @@ type c13CmdCase struct {
 func runC13(c *fw.Ctx) {
 	c13Fails(c)
 	c13Commands(c)
+	c13Readers(c)
 	scs := c13Scenarios(c)
 	for _, sc := range scs {
 		ExploreScenario(c, "C13", sc)
@@ -831,6 +951,18 @@ func replayC13(c *fw.Ctx, raw json.RawMessage) (bool, string) {
 	if json.Unmarshal(raw, &f) == nil && f.Kind != "" {
 		if f.Kind == "process" {
 			return false, "process-level cases are re-run by the check itself"
+		}
+		if f.Kind == "reader-sessions" {
+			var rc c13ReadCase
+			json.Unmarshal(raw, &rc)
+			before, n, ok := c13ReadEval(c, rc.Cmd, rc.Remote, 1<<20)
+			if !ok {
+				return false, "no server"
+			}
+			after, _, _ := c13ReadEval(c, rc.Cmd, rc.Remote, 0)
+			got, _, _ := c13ReadEval(c, rc.Cmd, rc.Remote, rc.Boundary)
+			bad := got != before && (got != after || rc.Boundary >= n)
+			return bad, fmt.Sprintf("%d lock acquisitions on the source; writer before acquisition %d: output equals before=%v after=%v", n, rc.Boundary+1, got == before, got == after)
 		}
 		if f.Kind == "command" {
 			var cc c13CmdCase
